@@ -73,15 +73,6 @@ const (
 // Next returns the next time this schedule is activated, greater than the given
 // time.  If no time can be found to satisfy the schedule, return the zero time.
 func (s *SpecSchedule) Next(t time.Time) time.Time {
-	// General approach
-	//
-	// For Month, Day, Hour, Minute, Second:
-	// Check if the time value matches.  If yes, continue to the next field.
-	// If the field doesn't match the schedule, then increment the field until it matches.
-	// While incrementing the field, a wrap-around brings it back to the beginning
-	// of the field list (since it is necessary to re-verify previous field
-	// values)
-
 	// Convert the given time into the schedule's timezone, if one is specified.
 	// Save the original timezone so we can convert back after we find a time.
 	// Note that schedules without a time zone specified (time.Local) are treated
@@ -91,18 +82,74 @@ func (s *SpecSchedule) Next(t time.Time) time.Time {
 	if loc == time.Local {
 		loc = t.Location()
 	}
-	if s.Location != time.Local {
-		t = t.In(s.Location)
-	}
+	t = t.In(loc)
 
 	// Start at the earliest possible time (the upcoming second).
 	t = t.Add(1*time.Second - time.Duration(t.Nanosecond())*time.Nanosecond)
 
-	// This flag indicates whether a field has been incremented.
-	added := false
-
 	// If no time is found within five years, return zero.
 	yearLimit := t.Year() + 5
+
+	// The field arithmetic of the search is only valid while the wall clock runs
+	// uniformly, so the time zone is searched one period of constant UTC offset
+	// at a time, each one through a fixed-offset view of it. Wall clock times
+	// skipped by a transition exist in no period and are never activated; of a
+	// repeated wall clock time the first occurrence is found first.
+	for t.Year() <= yearLimit {
+		name, offset := t.Zone()
+		end := offsetEnd(t, yearLimit)
+		next := s.nextFixed(t.In(time.FixedZone(name, offset)), yearLimit)
+		if !next.IsZero() && (end.IsZero() || next.Before(end)) {
+			return next.In(origLocation)
+		}
+		if end.IsZero() {
+			break
+		}
+		// Nothing before the offset changes: go on from the first instant of the
+		// following period.
+		t = end
+	}
+	return time.Time{}
+}
+
+// offsetEnd returns the instant at which the UTC offset in effect at t changes
+// (or the first zone boundary after yearLimit), or the zero time if the offset
+// stays the same forever.
+func offsetEnd(t time.Time, yearLimit int) time.Time {
+	_, offset := t.Zone()
+	for {
+		_, end := t.ZoneBounds()
+		if end.IsZero() {
+			return end
+		}
+		if !end.After(t) {
+			// For extrapolated zone rules the time package can report a boundary
+			// that has already passed. Never step backwards.
+			end = t.Add(1 * time.Second)
+		}
+		if _, o := end.Zone(); o != offset || end.Year() > yearLimit {
+			return end
+		}
+		t = end
+	}
+}
+
+// nextFixed returns the first activation time at or after t, which must be a
+// whole second in a location with a constant UTC offset, or the zero time if
+// there is none up to the end of yearLimit.
+func (s *SpecSchedule) nextFixed(t time.Time, yearLimit int) time.Time {
+	// General approach
+	//
+	// For Month, Day, Hour, Minute, Second:
+	// Check if the time value matches.  If yes, continue to the next field.
+	// If the field doesn't match the schedule, then increment the field until it matches.
+	// While incrementing the field, a wrap-around brings it back to the beginning
+	// of the field list (since it is necessary to re-verify previous field
+	// values)
+	loc := t.Location()
+
+	// This flag indicates whether a field has been incremented.
+	added := false
 
 WRAP:
 	if t.Year() > yearLimit {
@@ -127,25 +174,12 @@ WRAP:
 	}
 
 	// Now get a day in that month.
-	//
-	// NOTE: This causes issues for daylight savings regimes where midnight does
-	// not exist.  For example: Sao Paulo has DST that transforms midnight on
-	// 11/3 into 1am. Handle that by noticing when the Hour ends up != 0.
 	for !dayMatches(s, t) {
 		if !added {
 			added = true
 			t = time.Date(t.Year(), t.Month(), t.Day(), 0, 0, 0, 0, loc)
 		}
 		t = t.AddDate(0, 0, 1)
-		// Notice if the hour is no longer midnight due to DST.
-		// Add an hour if it's 23, subtract an hour if it's 1.
-		if t.Hour() != 0 {
-			if t.Hour() > 12 {
-				t = t.Add(time.Duration(24-t.Hour()) * time.Hour)
-			} else {
-				t = t.Add(time.Duration(-t.Hour()) * time.Hour)
-			}
-		}
 
 		if t.Day() == 1 {
 			goto WRAP
@@ -188,7 +222,7 @@ WRAP:
 		}
 	}
 
-	return t.In(origLocation)
+	return t
 }
 
 // dayMatches returns true if the schedule's day-of-week and day-of-month
